@@ -874,7 +874,7 @@ func (P) Generate(g *core.Gen) {
 	x.hostile()
 	x.boundary()
 	// structured messages of every kind at every gate version, with their hostile variants
-	rounds := g.N(8, 45)
+	rounds := g.N(6, 45)
 	for round := 0; round < rounds; round++ {
 		for _, kind := range kinds {
 			b := x.build(kind)
@@ -898,7 +898,7 @@ func (P) Generate(g *core.Gen) {
 						continue
 					}
 					x.dec("valid:"+kind, kind, pver, e, p, len(p) > 0)
-					if round < g.N(5, 20) && pver == pvs[len(pvs)-1] {
+					if round < g.N(4, 20) && pver == pvs[len(pvs)-1] {
 						x.malformed(b, pver, e, p)
 					}
 					if len(p) <= 200000 {
@@ -922,7 +922,7 @@ func (P) Generate(g *core.Gen) {
 		}
 	}
 	// random garbage into every decoder
-	for i := 0; i < g.N(400, 6000); i++ {
+	for i := 0; i < g.N(300, 6000); i++ {
 		kind := kinds[r.Intn(len(kinds))]
 		n := r.Intn(120)
 		p := r.Bytes(n)
